@@ -25,7 +25,8 @@
    NOT covered by the theorems (search by htmloracle against the x/net/html tree builder; open findings K16-K19, K30,
    K101-K113): whether an omitted tag is re-inferred at the same place, attribute rewriting other than quoting,
    character references in context, embedded content, template delimiters. *)
-From MVGen Require Import Tables_gen.
+From MVGen Require Import Tables_gen HtmlDefaults_gen.
+From MV Require Html.HtmlDefaults.
 From MV Require Import Base.MvBytes Base.Ws Xml.XmlModel Xml.XmlEscape Html.HtmlAttr Html.HtmlAttrProofs Html.HtmlWs Html.HtmlWsSpec Html.HtmlWsLemmas
   Html.HtmlWsProofs Html.HtmlWsWf Html.HtmlOpts.
 
@@ -86,3 +87,11 @@ Theorem keep_doc_tags_honoured_start : forall o omit inpre raw t rest,
   exists om ip rw sk, minify_pieces o omit inpre raw 0 (t :: rest) = PTag (data t ++ [62]) t :: minify_pieces o om ip rw sk rest.
 Proof. exact HtmlOpts.keep_doc_tags_honoured_start. Qed.
 Print Assumptions keep_doc_tags_honoured_start.
+
+(* "default ... attributes dropped": every rule by which html.go drops an attribute as default value (12 rules, regenerated
+   from the condition guarded by KeepDefaultAttrVals) names the attribute's missing-value default of the HTML Living
+   Standard on the elements that carry it (pinned in Html/HtmlDefaults.v), or — colspan/rowspan/span — a value for which
+   the integer parser falls back to the default 1; and the extraction found the rules it looks for *)
+Theorem default_attribute_rules_ok : HtmlDefaults.html_default_rules_ok = true /\ HtmlDefaults.html_default_rules_complete = true.
+Proof. vm_compute. split; reflexivity. Qed.
+Print Assumptions default_attribute_rules_ok.
